@@ -428,7 +428,8 @@ func (ex *Exec) checkPost(s *State, ret *ssa.Return, results []Val) {
 			continue // ghost call counters are not framed
 		}
 		r := s.declare(ex.g.fresh("fr"), SRef)
-		pre := []Term{IntLe(IntLit(0), r), IntLt(r, Term{"A0", SRef})}
+		// (reference 0 is nil, not an object: `armed(t.timer)` of a transaction that has no timer yet denotes no location)
+		pre := []Term{IntLt(IntLit(0), r), IntLt(r, Term{"A0", SRef})}
 		for _, b := range allowed[n] {
 			pre = append(pre, Not(Eq(r, b)))
 		}
@@ -561,10 +562,33 @@ func (ex *Exec) loopEnv(s *State, header *ssa.BasicBlock) *Env {
 			env.vars[p.Comment] = SV{V: fr.Regs[p], T: p.Type()}
 		}
 	}
-	// range iterators: expose visited set of the loop's range as `visited`
-	for k, v := range s.Ghost {
+	for n, nv := range fr.Names {
+		if _, taken := env.vars[n]; !taken {
+			env.vars[n] = SV{V: nv.V, T: nv.T}
+		}
+	}
+	// range iterators: expose the visited set of this loop's own range as
+	// `visited`, that of an enclosing range loop as `outervisited`
+	own := ""
+	for _, in := range header.Instrs {
+		if nx, ok := in.(*ssa.Next); ok {
+			own = "visited:" + nx.Iter.Name()
+		}
+	}
+	var keys []string
+	for k := range s.Ghost {
 		if strings.HasPrefix(k, "visited:") {
+			keys = append(keys, k)
+		}
+	}
+	sort.Strings(keys)
+	for _, k := range keys {
+		v := s.Ghost[k]
+		switch {
+		case own == "" || k == own:
 			env.vars["visited"] = SV{V: MathMap{Dom: v}}
+		default:
+			env.vars["outervisited"] = SV{V: MathMap{Dom: v}}
 		}
 	}
 	return env
@@ -576,16 +600,48 @@ func (ex *Exec) loopEnter(s *State, li *loopInfo, from *ssa.BasicBlock) {
 	}
 	invs := ex.con.LoopInv[li.Ordinal]
 	if ex.dry {
-		ex.fail("nested loop in dry run")
+		// a nested loop inside the body whose effects are being discovered:
+		// give up the discovery, the outer loop then havocs the whole heap
+		ex.dryNested = true
+		s.Dead = true
+		return
 	}
 	ex.bindPhis(s, li.Header, from)
 	env := ex.loopEnv(s, li.Header)
 	for _, inv := range invs {
+		if ex.mentionsUnboundSiteLet(s, inv.Expr) {
+			continue // about a value this path has not created
+		}
 		ex.oblige(s, fmt.Sprintf("%s#inv.init.%d.%s", ex.key, li.Ordinal, inv.Label), "inv", li.Header.Instrs[0].Pos(), inv.Tags,
 			ex.evalBool(env, inv.Expr), inv.Src)
 	}
 	// discover what the loop modifies: dry run of the body
+	ex.dryYield = false
+	ex.dryNested = false
 	mods, gmods := ex.dryRun(s, li)
+	if ex.dryNested {
+		ex.dryYield = true // untouched arrays may be modified by the nested loop as well
+		mods = mods[:0]
+		for n := range s.Heap {
+			mods = append(mods, n)
+		}
+		sort.Strings(mods)
+		for _, n := range mods {
+			ex.lastDryWhole[n] = true
+		}
+		gmods = gmods[:0]
+		for n := range s.Ghost {
+			if !strings.HasPrefix(n, "lock:") {
+				gmods = append(gmods, n)
+			}
+		}
+		sort.Strings(gmods)
+	}
+	if ex.dryYield {
+		// the body blocks: in a later iteration other steps have already run,
+		// so heap arrays not read before the loop are not the initial ones
+		s.Epoch++
+	}
 	fr := s.top()
 	for _, in := range li.Header.Instrs {
 		p, ok := in.(*ssa.Phi)
@@ -614,6 +670,9 @@ func (ex *Exec) loopEnter(s *State, li *loopInfo, from *ssa.BasicBlock) {
 	}
 	env = ex.loopEnv(s, li.Header)
 	for _, inv := range invs {
+		if ex.mentionsUnboundSiteLet(s, inv.Expr) {
+			continue
+		}
 		s.assume(ex.evalBool(env, inv.Expr))
 	}
 }
@@ -668,6 +727,9 @@ func (ex *Exec) loopBack(s *State, li *loopInfo, from *ssa.BasicBlock) {
 	ex.bindPhis(s, li.Header, from)
 	env := ex.loopEnv(s, li.Header)
 	for _, inv := range ex.con.LoopInv[li.Ordinal] {
+		if ex.mentionsUnboundSiteLet(s, inv.Expr) {
+			continue
+		}
 		ex.oblige(s, fmt.Sprintf("%s#inv.keep.%d.%s", ex.key, li.Ordinal, inv.Label), "inv", li.Header.Instrs[0].Pos(), inv.Tags,
 			ex.evalBool(env, inv.Expr), inv.Src)
 	}
@@ -732,6 +794,12 @@ func (ex *Exec) dryRun(s *State, li *loopInfo) ([]string, []string) {
 		ex.usedTrusted[k] = true
 	}
 	ex.lastDryIdx, ex.lastDryWhole = sub.dryIdx, sub.dryWhole
+	if sub.dryYield {
+		ex.dryYield = true
+	}
+	if sub.dryNested {
+		ex.dryNested = true
+	}
 	return mods, gmods
 }
 
